@@ -62,6 +62,7 @@ def one(ctx, data, meta=None, htmls=(False, True)):
             if 'ok' in m.get(v + '_pars', {}):
                 proj = lambda r: {k: r.get(k) for k in ('lin', 'style', 'elem', 'copy')}
                 a = [proj(r) for r in recs]; b = [proj(r) for r in flat(m[v + '_pars']['ok'], 4)]
+                pk.wild_copy(a, b)
                 d = first_diff(a, b)
                 if d: ctx.diff(f'lineage/style/element of {v}_pars', case, d[1], d[2], path=d[0]); good = False
             # the property on the implementation's records
